@@ -27,7 +27,8 @@ TRUSTED += [
     "correspondence feeds the library's REAL frame stack and dq_state words to the model inside Coq and compares find_queue, get_specific, "
     "label and the exit statuses of dispatch_assert_queue[_not] run in forked children",
     "frames_of_path (which frames each submission path establishes) is hand-written and tied ONLY by that correspondence (partial)",
-    "object type constants of Model/Frames.v are compared with the library's on every run; _dq_state_drain_locked_by is generated (Gen_dqstate)",
+    "object type constants of Model/Frames.v are evaluated in Coq on every run and compared with the library's (harness line C); "
+    "_dq_state_drain_locked_by is generated (Gen_dqstate)",
 ]
 # audit F17 follow-up:
 TRUSTED += [
@@ -39,9 +40,12 @@ TRUSTED += [
     "(Frames_proofs.lock_discipline) is PROVED only for hierarchies of serial lanes under dispatch_async (Properties_C18_locks.v, from the "
     "invariant of Model/HLane.v, itself tied by the C03 correspondence); for sync hand-offs, concurrent queues, apply and thread-bound "
     "queues it is an explicit hypothesis of the exactness theorems, observed on every probe (flag 'drain locks within chain / context')",
-    "Model/Create.v is hand-written (creation with every kind of target, on the dq_priority / dq_state / dq_atomic_flags words); tie: every "
-    "table entry x target kinds, words read from the created queue; its constants and the 12 root-queue priorities are compared with the "
-    "library's on every run; targets that are pthread root queues (TOther) do not exist on this build and are not exercised",
+    "Model/Create.v is hand-written (creation on the dq_priority / dq_state / dq_atomic_flags words); tie: every table entry x the target "
+    "kinds that exist on this build (NULL, the 12 global root queues, serial / concurrent lane, workloop, main queue), words read from the "
+    "created queue; its constants and the 12 root-queue priorities are EVALUATED in Coq and compared with the library's on every run. "
+    "UNTIED: the TOther branch (pthread root queue targets: none on this build) although the theorems quantify over it; NULL labels are "
+    "excluded by the theorems' hypothesis and not exercised. The label clause is definitional in the model (the label is passed through); "
+    "that the library returns an equal, privately copied string is a check of the library by the correspondence only",
 ]
 ASSUMPTIONS = ["build configuration without pthread workqueue QoS (HAVE_PTHREAD_WORKQUEUE_QOS=0): user-interactive clamps to "
                "user-initiated, maintenance to background"]
@@ -75,6 +79,80 @@ def _merge_results(a, b):
     return out
 
 
+def _attr_run(exe, G):
+    """the attribute table dump (command A) and the dispatch_get_global_queue calls: (alines, gres) or an error text.  A run that
+    hit the wall-clock limit is repeated once with 10x the limit"""
+    inp = "A\n" + "".join("G %d %d\n" % g for g in G)
+    r = common.run([exe], input=inp, timeout=600)
+    if r.returncode == 124:
+        r = common.run([exe], input=inp, timeout=6000)
+    out = [l for l in r.stdout.split("\n") if l.strip()]
+    if r.returncode != 0:
+        return "attribute harness run failed: rc=%s %s" % (r.returncode, (r.stderr or "")[-1500:] + r.stdout[-300:])
+    if len(out) <= len(G):
+        return "attribute harness output truncated: %d lines for %d calls and the table" % (len(out), len(G))
+    try:
+        alines = [list(map(int, l.split())) for l in out[:len(out) - len(G)]]
+        gres = [int(x) for x in out[len(out) - len(G):]]
+    except ValueError:
+        return "attribute harness output malformed: " + r.stdout[-300:]
+    return alines, gres
+
+
+def _attr_evaluate(alines, G, gres):
+    """compare inside Coq; returns (mismatches, failures); RuntimeError when the model could not be evaluated"""
+    if len(G) != len(gres):
+        raise RuntimeError("%d results for %d dispatch_get_global_queue calls" % (len(gres), len(G)))
+    import os
+    body = []
+    body.append("Definition cA : list (Z * list Z) := [%s]." % ";\n".join("(%s, %s)" % ("(%d)" % l[0], driver.zlist(l[1:])) for l in alines))
+    body.append("Eval vm_compute in (ATTR_COUNT, Z.of_nat (length cA)).")
+    body.append("Eval vm_compute in map (fun '(a, e) => b2z (zlist_eqb (attr_line a) e)) cA.")
+    body.append("Definition cG : list (Z*Z*Z) := [%s]." % "; ".join("((%d),%d,%d)" % (p, f, r_) for (p, f), r_ in zip(G, gres)))
+    body.append("Eval vm_compute in map (fun '(p,f,r) => dispatch_get_global_queue p f) cG.")
+    body.append("Eval vm_compute in map (fun '(p,f,r) => b2z (global_queue_spec p f =? r)) cG.")
+    name = "c18_cases_p%d" % os.getpid()
+    imports = ["Word", "Gen_consts", "Gen_qos", "Qos", "Attr"]
+    ok, vals, raw = driver.coq_eval(name, imports, "\n".join(body) + "\n", timeout=900)
+    if not ok and "TIMEOUT" in raw:       # load: once more with 10x
+        ok, vals, raw = driver.coq_eval(name, imports, "\n".join(body) + "\n", timeout=9000)
+    for ext in (".v", ".vo", ".vok", ".vos", ".glob"):
+        try:
+            os.remove(os.path.join(common.CACHE, "cases", name + ext))
+        except OSError:
+            pass
+    if not ok or len(vals) != 4:
+        raise RuntimeError(raw[-2500:])
+    mism, fails = [], []
+    cnt = driver.ints(vals[0])
+    if len(cnt) != 2 or cnt[0] + 1 != cnt[1]:
+        if len(alines) > 1 or len(cnt) != 2:      # (a replay evaluates single entries)
+            mism.append({"what": "attribute table size differs", "detail": {"model_ATTR_COUNT_and_lines": cnt}})
+    okA = driver.ints(vals[1])
+    mG = driver.ints(vals[2])
+    jG = driver.ints(vals[3])
+    if len(okA) != len(alines) or len(mG) != len(G) or len(jG) != len(G):
+        raise RuntimeError("answers %d/%d/%d for %d entries and %d calls" % (len(okA), len(mG), len(jG), len(alines), len(G)))
+    for l, o in zip(alines, okA):
+        if o != 1:
+            mism.append({"what": "attribute entry: implementation and Model/Attr.v differ (to_info / constructors / created queue report)",
+                         "detail": {"attr_index": l[0], "impl_vector": l[1:]}, "attr_index": l[0]})
+            # the impl side of the judge: the created queue must report what the attribute denotes
+            fails.append({"key": "attr[%d]" % l[0], "what": "attribute table entry %d behaves differently from the attribute "
+                          "algebra (fields %s, report %s)" % (l[0], l[1:7], l[-5:]), "attr_index": l[0], "impl_vector": l[1:]})
+    for (p, f), r_, m in zip(G, gres, mG):
+        if r_ != m:
+            mism.append({"what": "dispatch_get_global_queue: implementation and generated model differ",
+                         "detail": {"priority": p, "flags": f, "impl": r_, "model": m}, "call": "dispatch_get_global_queue", "args": [p, f]})
+    for (p, f), r_, j in zip(G, gres, jG):
+        if j != 1:
+            fails.append({"key": "dispatch_get_global_queue(%d,%d)" % (p, f),
+                          "what": "dispatch_get_global_queue(%d, %d) returned %s; the documented class map requires otherwise"
+                                  % (p, f, "NULL" if r_ == 0 else "root queue #%d" % (r_ - 4096)),
+                          "call": "dispatch_get_global_queue", "args": [p, f], "impl": r_})
+    return mism, fails
+
+
 def _correspond_attr(ctx):
     exe, msg = common.build_harness("c18_attr", ["c18_attr.c"], whitebox=True)
     if exe is None:
@@ -95,47 +173,16 @@ def _correspond_attr(ctx):
     n = 300 if ctx.tier == "quick" else 20000
     for _ in range(n):
         G.append((rng.range(-I63, I63 - 1), rng.choice([0, 2, rng.range(0, U64 - 1)])))
-    inp = "A\n" + "".join("G %d %d\n" % g for g in G)
-    r = common.run([exe], input=inp, timeout=600)
-    out = [l for l in r.stdout.split("\n") if l.strip()]
-    if r.returncode != 0:
-        return {"mismatches": [{"what": "harness run failed", "detail": r.stderr[-2000:] + r.stdout[-500:]}], "failures": [], "evaluations": 0}
-    alines = [list(map(int, l.split())) for l in out[:len(out) - len(G)]]
-    gres = [int(x) for x in out[len(out) - len(G):]]
-    body = []
-    body.append("Definition cA : list (Z * list Z) := [%s]." % ";\n".join("(%s, %s)" % ("(%d)" % l[0], driver.zlist(l[1:])) for l in alines))
-    body.append("Eval vm_compute in (ATTR_COUNT, Z.of_nat (length cA)).")
-    body.append("Eval vm_compute in map (fun '(a, e) => b2z (zlist_eqb (attr_line a) e)) cA.")
-    body.append("Definition cG : list (Z*Z*Z) := [%s]." % "; ".join("((%d),%d,%d)" % (p, f, r_) for (p, f), r_ in zip(G, gres)))
-    body.append("Eval vm_compute in map (fun '(p,f,r) => dispatch_get_global_queue p f) cG.")
-    body.append("Eval vm_compute in map (fun '(p,f,r) => b2z (global_queue_spec p f =? r)) cG.")
-    ok, vals, raw = driver.coq_eval("c18_cases", ["Word", "Gen_consts", "Gen_qos", "Qos", "Attr"], "\n".join(body) + "\n", timeout=900)
-    mism, fails = [], []
-    if not ok or len(vals) != 4:
-        return {"mismatches": [{"what": "model evaluation failed (coqc)", "detail": raw}], "failures": [], "evaluations": len(G)}
-    cnt = driver.ints(vals[0])
-    if cnt[0] + 1 != cnt[1]:
-        mism.append({"what": "attribute table size differs", "detail": {"model_ATTR_COUNT": cnt[0], "impl_lines": cnt[1]}})
-    okA = driver.ints(vals[1])
-    for l, o in zip(alines, okA):
-        if o != 1:
-            mism.append({"what": "attribute entry: implementation and Model/Attr.v differ (to_info / constructors / created queue report)",
-                         "detail": {"attr_index": l[0], "impl_vector": l[1:]}})
-            # the impl side of the judge: the created queue must report what the attribute denotes
-            fails.append({"key": "attr[%d]" % l[0], "what": "attribute table entry %d behaves differently from the attribute "
-                          "algebra (fields %s, report %s)" % (l[0], l[1:7], l[-5:]), "attr_index": l[0], "impl_vector": l[1:]})
-    mG = driver.ints(vals[2])
-    jG = driver.ints(vals[3])
-    for (p, f), r_, m in zip(G, gres, mG):
-        if r_ != m:
-            mism.append({"what": "dispatch_get_global_queue: implementation and generated model differ",
-                         "detail": {"priority": p, "flags": f, "impl": r_, "model": m}})
-    for (p, f), r_, j in zip(G, gres, jG):
-        if j != 1:
-            fails.append({"key": "dispatch_get_global_queue(%d,%d)" % (p, f),
-                          "what": "dispatch_get_global_queue(%d, %d) returned %s; the documented class map requires otherwise"
-                                  % (p, f, "NULL" if r_ == 0 else "root queue #%d" % (r_ - 4096)),
-                          "call": "dispatch_get_global_queue", "args": [p, f], "impl": r_})
+    got = _attr_run(exe, G)
+    if isinstance(got, str):
+        return {"mismatches": [{"what": got}], "failures": [], "evaluations": 0}
+    alines, gres = got
+    try:
+        mism, fails = _attr_evaluate(alines, G, gres)
+    except RuntimeError as e:
+        return {"mismatches": [{"what": "model evaluation failed (coqc, attribute / global-queue part)", "detail": str(e)}], "failures": [], "evaluations": 0}
+    if not alines or not G:
+        mism.append({"what": "attribute / global-queue part measured nothing"})
     if len(fails) > 40:
         fails = fails[:40]
     nonnull = sum(1 for x in gres if x)
@@ -153,18 +200,77 @@ def _correspond_attr(ctx):
             "mismatches": mism[:40], "failures": fails}
 
 
-def replay(ctx, obj):
+def _replay_attr(ctx, f):
+    """attribute / global-queue entries: run the recorded call or table entry again and re-judge it in Coq"""
     exe, msg = common.build_harness("c18_attr", ["c18_attr.c"], whitebox=True)
-    for f in obj.get("failures", []):
-        if str(f.get("key", "")).startswith("frames/"):     # C18-FRAMES extension
-            c18_frames.replay_frames(ctx, f)
-        elif str(f.get("key", "")).startswith("create/"):   # C18-CREATE extension
-            c18_create.replay_create(ctx, f)
-        elif f.get("call") == "dispatch_get_global_queue":
-            r = common.run([exe], input="G %d %d\n" % tuple(f["args"]))
-            print("dispatch_get_global_queue%s -> %s (recorded %s)" % (tuple(f["args"]), r.stdout.strip(), f.get("impl")))
-        else:
-            print("attribute entry", f.get("attr_index"), f.get("impl_vector"))
+    if exe is None:
+        print("harness build failed: " + msg[-500:])
+        return 2
+    G = [tuple(f["args"])] if f.get("call") == "dispatch_get_global_queue" and "args" in f else []
+    idx = f.get("attr_index")
+    if not G and idx is None:
+        print("this entry names no input (%s): only a full ./check C18 re-establishes it" % str(f.get("what"))[:200])
+        return 2
+    got = _attr_run(exe, G)
+    if isinstance(got, str):
+        print(got)
+        return 2
+    alines, gres = got
+    alines = [l for l in alines if l[0] == idx] if idx is not None else alines[:1]
+    try:
+        mism, fails = _attr_evaluate(alines, G, gres)
+    except RuntimeError as e:
+        print("the model could not be evaluated: " + str(e)[:600])
+        return 2
+    print("recorded: " + str(f.get("what"))[:600])
+    if G:
+        print("dispatch_get_global_queue%s -> %s now (recorded %s)" % (G[0], gres[0], f.get("impl")))
+        hits = [x for x in fails + mism if x.get("args") == list(G[0])]
+    else:
+        print("attribute entry %s -> %s now" % (idx, alines[0][1:] if alines else None))
+        hits = [x for x in fails + mism if x.get("attr_index") == idx]
+        if not alines:
+            print("the table no longer has this entry")
+            return 1
+    if hits:
+        print("REPRODUCES: " + str(hits[0]["what"])[:700])
+        return 1
+    print("does not reproduce")
+    return 0
+
+
+def replay(ctx, obj):
+    """re-execute every recorded failure / broken tie against the current build and re-judge it.
+    1 = at least one reproduces, 0 = all were executed and none reproduces, 2 = nothing could be executed"""
+    results = []
+    entries = [("failure", f) for f in obj.get("failures", [])]
     for b in obj.get("broken", []):
-        print("no longer checks:", b)
-    return 1
+        d = b.get("detail") if isinstance(b, dict) else None
+        if isinstance(b, dict) and b.get("what") == "correspondence" and isinstance(d, dict):
+            entries.append(("broken tie", d))
+        else:
+            print("no longer checked (%s): %s" % (b.get("what") if isinstance(b, dict) else "?", str(d if d is not None else b)[:600]))
+            print("  -> a proof / translation / build entry cannot be replayed from this file: only a full ./check C18 re-establishes it")
+            results.append(2)
+    for kind, f in entries:
+        key = str(f.get("key", ""))
+        print("---- %s: %s" % (kind, (key or str(f.get("what")))[:160]))
+        if "scn" in f or key.startswith("frames/"):
+            results.append(c18_frames.replay_frames(ctx, f))
+        elif "create" in f or key.startswith("create/"):
+            results.append(c18_create.replay_create(ctx, f))
+        elif f.get("call") == "dispatch_get_global_queue" or f.get("attr_index") is not None:
+            results.append(_replay_attr(ctx, f))
+        else:
+            print("nothing to execute for this entry (%s): only a full ./check C18 re-establishes it" % str(f.get("what"))[:300])
+            results.append(2)
+    if any(r == 1 for r in results):
+        return 1
+    if results and all(r == 0 for r in results):
+        print("does not reproduce")
+        return 0
+    if any(r == 0 for r in results):
+        print("does not reproduce (entries that could not be executed are listed above)")
+        return 0
+    print("nothing could be executed")
+    return 2
